@@ -32,7 +32,7 @@ theorem lt_cd (q : Quat ℝ) : (Quat.toMat q).m12 + (Quat.toMat q).m21 < 0 ↔ q
   rw [sym_cd]; constructor <;> intro h <;> linarith
 
 theorem beq_real_false (x y : ℝ) : Scalar.beq x y = false ↔ ¬ x = y := by
-  rw [← beq_real]; simp
+  show decide (x = y) = false ↔ _; simp
 
 /-- `|y|` with the sign of `x·y` -/
 noncomputable def sgnAbs (x y : ℝ) : ℝ := if x * y < 0 then -|y| else |y|
@@ -93,7 +93,7 @@ noncomputable def omNormalize (q0 : ℝ) (v : Vec3 ℝ) : Quat ℝ :=
 theorem omCode_toMat (q : Quat ℝ) (h : Quat.normSq q = 1)
     (ga : OmGuard q.a) (gb : OmGuard q.b) (gc : OmGuard q.c) (gd : OmGuard q.d) :
     Conv.om2qu (Quat.toMat q) = omNormalize |q.a| (omVec q.a q.b q.c q.d) := by
-  simp only [Conv.om2qu, lit_real, Nat.cast_ofNat, Nat.cast_one, Nat.cast_zero, lt_real, sqrt_real, abs_real,
+  simp only [Conv.om2qu, lit_real, Nat.cast_one, Nat.cast_zero, lt_real, sqrt_real, abs_real,
     Bool.not_eq_eq_eq_not, Bool.not_true,
     almost_a q h, almost_b q h, almost_c q h, almost_d q h, lt_ab, lt_ac, lt_ad, lt_bc, lt_bd, lt_cd,
     eps9_real, half_real, om_stage1 _ _ gb, om_stage1 _ _ gc, om_stage1 _ _ gd, om_stage1_a _ ga, beq_real_false]
